@@ -208,6 +208,26 @@ def run_case(ctx, case):
             hist, model_hist, hist_resubscribed = ob, list(kept), True
             script.append(("resubscribe_history_observer",))
             ctx.count("history_observer_resubscribed")
+        if rng.random() < 0.04 and not run.done():
+            # a deep copy of the dispatcher (look-ahead) is dispatched on and reset: the original's
+            # observers hear nothing of it
+            import copy
+            n_log = len(log)
+            hist_before = None if hist is None else len(hist.history)
+            dup = copy.deepcopy(d)
+            nxt = dup.raw_ready_operations()[0]
+            dup.dispatch(nxt, nxt.machines[0])
+            if rng.random() < 0.5:
+                dup.reset()
+            ctx.count("dispatches_on_a_deep_copy")
+            if len(log) != n_log or (hist is not None and len(hist.history) != hist_before):
+                ctx.violation("c10_dispatch_on_a_deep_copy_notified_the_original_observers",
+                              {"new_events": [(e[0], e[1]) for e in log[n_log:]], "script": script})
+                return
+            if [id(x) for x in d.subscribers] != [id(x) for x in subs]:
+                ctx.violation("c10_subscriber_list_differs_from_model",
+                              {"where": "after a deep copy was used", "script": script})
+                return
         if ev < 0.10 and len(recs) < 6:
             add_recorder()
         elif ev < 0.18 and recs:
